@@ -30,9 +30,24 @@ def gen_inputs(ctx):
             found["lz1"] += 1
         j += 1
     ctx.notes["leading_zero_x_keys_found"] = dict(found, searched=j)
+    # keys whose HASH160 starts with a zero byte (mainnet P2PKH payload then starts 00 00: two leading '1's),
+    # for the compressed and for the uncompressed encoding - searched along G, 2G, 3G, ...
+    hz = {"h160c-lz": 0, "h160u-lz": 0}
+    want = 2 if q else 12
+    cur, j = None, 0
+    while j < (4000 if q else 40000) and min(hz.values()) < want:
+        cur = R.pt_add(cur, R.G)
+        j += 1
+        if R.hash160(R.sec(cur, True))[0] == 0 and hz["h160c-lz"] < want:
+            keys.append((cur, "h160c-lz"))
+            hz["h160c-lz"] += 1
+        elif R.hash160(R.sec(cur, False))[0] == 0 and hz["h160u-lz"] < want:
+            keys.append((cur, "h160u-lz"))
+            hz["h160u-lz"] += 1
+    ctx.notes["leading_zero_hash160_keys_found"] = dict(hz, searched=j)
     for k in (1, 2, 3, R.N - 1, R.N - 2):
         keys.append((R.pt_mul(k), "small/extreme"))
-    for _ in range(6 if q else 80):
+    for _ in range(6 if q else 400):
         keys.append((R.pt_mul(rng.randrange(1, R.N)), "rand"))
     for pt, kc in keys:
         K = B(R.sec(pt, True))
@@ -100,8 +115,12 @@ def mut(e):
 
 
 def run(ctx):
-    ctx.mc("MC_Address", core.cfg_of("MC_Address.cfg"), label="5 kinds x 2 networks x keys with abstract hashes: decodes to the right script")
-    events = core.build_events(ctx, gen_inputs(ctx))
+    cfg = core.cfg_of("MC_Address.cfg")
+    if not ctx.quick:
+        cfg = cfg.replace("MaxPre = 3", "MaxPre = 5").replace("Alphabet = {0, 1, 255}", "Alphabet = {0, 1, 127, 255}")
+    ctx.mc("MC_Address", cfg, label="5 kinds x 2 networks x keys x every hash-output prefix over the alphabet (all leading-zero "
+                                    "patterns): the address decodes to the right script, network and leading-'1' count")
+    events = core.build_events(ctx, gen_inputs(ctx) if ctx.quick else core.rounds(ctx, gen_inputs, 8))
     events += core.suite_events(ctx, ["tests/test_base_wallet.py", "tests/test_bip44.py", "tests/test_bip49.py", "tests/test_bip84.py"],
                                 ("Addr",), len(events), limit=150 if ctx.quick else 3000)
     for e in events[:2] + events[-1:]:
